@@ -259,7 +259,7 @@ func runC16(c *Ctx, r *Run) {
 	r.Require("SPEC-TAG", 14)
 	r.Require("SPEC-NEG", 5)
 	r.Require("DEC-1", 4)
-	r.Require("ETH-1", 4)
+	r.Require("ETH-1", 5)
 }
 
 // checkTaggedHashShape: abstract byte-stream written into the hasher of TaggedHash.
@@ -943,8 +943,58 @@ func checkSigEthereum(c *Ctx, r *Run) {
 			}
 		}
 	}
-	r.Check("ETH-1", name+"|R-follows-s", c.Pos(fn.Pos()), rOK || !negSeen, "after s was negated in place, R is re-decoded from the flipped prefix and a failure is returned, so the caller's signature stays valid",
-		"s is negated in place (the caller's scalar is shared) but R is not updated on every accepting path: the original signature object no longer verifies")
+	followCheck := func(inPlaceS bool) {
+		r.Check("ETH-1", name+"|R-follows-s", c.Pos(fn.Pos()), rOK || !inPlaceS, "after s was negated in place, R is re-decoded from the flipped prefix and a failure is returned, so the caller's signature stays valid",
+			"s is negated in place (the caller's scalar is shared) but R is not updated on every accepting path: the original signature object no longer verifies")
+	}
+	// ETH-2: R and S are both shared with the caller (interface values holding pointers): either both are
+	// updated in place or neither is
+	direct := func(v ssa.Value, field string) bool {
+		v = stripConv(v)
+		if u, ok := v.(*ssa.UnOp); ok && u.Op == token.MUL {
+			v = u.X
+		}
+		switch x := v.(type) {
+		case *ssa.FieldAddr:
+			return fieldName(x.X.Type(), x.Field) == field && strings.HasPrefix(path(x.X), fn.Params[0].Name())
+		case *ssa.Field:
+			return fieldName(x.X.Type(), x.Field) == field && strings.HasPrefix(path(x.X), fn.Params[0].Name())
+		}
+		return false
+	}
+	inPlaceS, inPlaceR := false, false
+	allInstrs(fn, func(in ssa.Instruction) {
+		cc, ok := in.(ssa.CallInstruction)
+		if !ok {
+			return
+		}
+		o := calleeObj(cc)
+		if o == nil {
+			return
+		}
+		rv := recvOf(cc)
+		if rv == nil {
+			rv = cc.Common().Value
+		}
+		if rv == nil {
+			return
+		}
+		switch o.Name() {
+		case "Negate", "Set", "SetNat", "Add", "Sub", "Mul", "Invert":
+			if direct(rv, "S") {
+				inPlaceS = true
+			}
+		}
+		switch o.Name() {
+		case "UnmarshalBinary", "Negate", "Set", "Add", "Sub":
+			if direct(rv, "R") {
+				inPlaceR = true
+			}
+		}
+	})
+	followCheck(inPlaceS)
+	r.Check("ETH-1", name+"|R-and-S-move-together", c.Pos(fn.Pos()), inPlaceS == inPlaceR, "the caller's R and S are either both normalised in place or both left alone",
+		fmt.Sprintf("the caller's S is modified in place: %v, the caller's R: %v - after the export the signature object holds (±R, s) of mixed signs and no longer verifies", inPlaceS, inPlaceR))
 	// capacity 65
 	capOK := false
 	allInstrs(fn, func(in ssa.Instruction) {
